@@ -144,12 +144,15 @@ def run(ctx: Ctx) -> None:
                 fl = flow_of(prog, f)
                 lits: List[Tuple[str, str]] = []
                 unknown = []
-                for lst in n.args:
-                    if not isinstance(lst, (ast.List, ast.Tuple)):
-                        unknown.append(unparse(lst))
+                for lst0 in n.args:
+                    res_ = _list_literal(ctx, f, lst0, 0)
+                    if res_ is None:
+                        unknown.append(unparse(lst0))
                         continue
+                    lf, lst = res_
+                    lfl = flow_of(prog, lf)
                     for e in lst.elts:
-                        cls = _class_of_expr(ctx, f, fl, e)
+                        cls = _class_of_expr(ctx, lf, lfl, e)
                         if cls is None:
                             unknown.append(unparse(e))
                         else:
@@ -177,59 +180,7 @@ def run(ctx: Ctx) -> None:
         if len(cs) > 1:
             rep.bad("C17.R3", "dds", "codec classes have distinct references", cs[0], [f"{r}: {cs}"], f"dup-class-ref:{r}", what="two codec classes return the same reference")
 
-    # ---- R4 / R5 duals ---------------------------------------------------------------------------
-    n4 = 0
-    for c in codec_classes(ctx):
-        s, d = c.methods.get("serialize_into"), c.methods.get("deserialize_from")
-        if s is None or d is None:
-            continue
-        n4 += 1
-        ws, wd = _io_profile(ctx, s), _io_profile(ctx, d)
-        desc = f"{c.name}: serialize_into and deserialize_from are dual"
-        wit = []
-        if ws["open"] or wd["open"]:
-            if sorted(m.replace("w", "r") for m in ws["open"]) != sorted(wd["open"]):
-                wit.append(f"open modes {ws['open']} (write) vs {wd['open']} (read)")
-            for m in ws["open"] + wd["open"]:
-                if "b" not in m:
-                    wit.append(f"file opened in text mode {m!r}: newline translation changes '\\r\\n' / '\\r' (the value is not read back equal, the file is not verbatim)")
-        if (ws["encode"] or wd["decode"]) and ws["encode"] != wd["decode"]:
-            wit.append(f"encodings differ: encode{ws['encode']} vs decode{wd['decode']}")
-        pairs = {"pickle.dump": "pickle.load", "to_parquet": "read_parquet", "write.parquet": "read.parquet", "write": "read"}
-        for a, b in pairs.items():
-            if (a in ws["ops"]) != (b in wd["ops"]):
-                wit.append(f"{a} on write but {'no ' if b not in wd['ops'] else ''}{b} on read" if a in ws["ops"] else f"{b} on read without {a} on write")
-        locs = (s.positional_params()[-1:], d.positional_params()[-1:])
-        if not ws["uses_loc"] or not wd["uses_loc"]:
-            wit.append("the location parameter is not the file that is opened")
-        if wit:
-            rep.bad("C17.R4", c.qname, desc, s.loc(), wit, "duals", what=f"{c.name} does not read back what it writes")
-        else:
-            rep.ok("C17.R4", c.qname, desc, s.loc())
-        # R5 verbatim for the text and bytes codecs
-        handled = _handled(ctx, c)
-        if handled & {"str", "bytes"}:
-            desc5 = f"{c.name}: the file holds exactly the value (utf-8 text / the bytes)"
-            blob = s.positional_params()[0] if s.positional_params() else None
-            w5 = []
-            written = ws["written"]
-            if len(written) != 1:
-                w5.append(f"{len(written)} write() calls")
-            else:
-                w = written[0]
-                if "str" in handled:
-                    ok = (isinstance(w, ast.Call) and isinstance(w.func, ast.Attribute) and w.func.attr == "encode" and isinstance(w.func.value, ast.Name)
-                          and w.func.value.id == blob and ws["encode"] in (["utf-8"], ["utf8"], ["UTF-8"]))
-                else:
-                    ok = isinstance(w, ast.Name) and w.id == blob
-                if not ok:
-                    w5.append(f"written expression `{unparse(w, 60)}` is not the value itself")
-            if any("b" not in m for m in ws["open"]):
-                w5.append("written in text mode")
-            if w5:
-                rep.bad("C17.R5", c.qname, desc5, s.loc(), w5, "verbatim", what=f"{c.name} does not store the value verbatim")
-            else:
-                rep.ok("C17.R5", c.qname, desc5, s.loc())
+    n4 = codec_duals(ctx, "C17.R4", "C17.R5")
     rep.floor("C17.R4", n4, 4)
 
     # ---- R6 registration consistency --------------------------------------------------------------
@@ -302,6 +253,67 @@ def run(ctx: Ctx) -> None:
     rep.floor("C17.R7", n7, 1)
 
 
+def codec_duals(ctx: Ctx, rule4: str, rule5: str) -> int:
+    """serialize_into / deserialize_from of every codec class are duals; text and bytes are written verbatim"""
+    rep = ctx.report
+    prog = ctx.prog
+    # ---- R4 / R5 duals ---------------------------------------------------------------------------
+    n4 = 0
+    for c in codec_classes(ctx):
+        s, d = c.methods.get("serialize_into"), c.methods.get("deserialize_from")
+        if s is None or d is None:
+            continue
+        n4 += 1
+        ws, wd = _io_profile(ctx, s), _io_profile(ctx, d)
+        desc = f"{c.name}: serialize_into and deserialize_from are dual"
+        wit = []
+        if ws["open"] or wd["open"]:
+            if sorted(m.replace("w", "r") for m in ws["open"]) != sorted(wd["open"]):
+                wit.append(f"open modes {ws['open']} (write) vs {wd['open']} (read)")
+            for m in ws["open"] + wd["open"]:
+                if "b" not in m:
+                    wit.append(f"file opened in text mode {m!r}: newline translation changes '\\r\\n' / '\\r' (the value is not read back equal, the file is not verbatim)")
+        if (ws["encode"] or wd["decode"]) and ws["encode"] != wd["decode"]:
+            wit.append(f"encodings differ: encode{ws['encode']} vs decode{wd['decode']}")
+        pairs = {"pickle.dump": "pickle.load", "to_parquet": "read_parquet", "write.parquet": "read.parquet", "write": "read"}
+        for a, b in pairs.items():
+            if (a in ws["ops"]) != (b in wd["ops"]):
+                wit.append(f"{a} on write but {'no ' if b not in wd['ops'] else ''}{b} on read" if a in ws["ops"] else f"{b} on read without {a} on write")
+        locs = (s.positional_params()[-1:], d.positional_params()[-1:])
+        if not ws["uses_loc"] or not wd["uses_loc"]:
+            wit.append("the location parameter is not the file that is opened")
+        if wit:
+            rep.bad(rule4, c.qname, desc, s.loc(), wit, "duals", what=f"{c.name} does not read back what it writes")
+        else:
+            rep.ok(rule4, c.qname, desc, s.loc())
+        # R5 verbatim for the text and bytes codecs
+        handled = _handled(ctx, c)
+        if handled & {"str", "bytes"}:
+            desc5 = f"{c.name}: the file holds exactly the value (utf-8 text / the bytes)"
+            blob = s.positional_params()[0] if s.positional_params() else None
+            w5 = []
+            written = ws["written"]
+            if len(written) != 1:
+                w5.append(f"{len(written)} write() calls")
+            else:
+                w = written[0]
+                if "str" in handled:
+                    ok = (isinstance(w, ast.Call) and isinstance(w.func, ast.Attribute) and w.func.attr == "encode" and isinstance(w.func.value, ast.Name)
+                          and w.func.value.id == blob and ws["encode"] in (["utf-8"], ["utf8"], ["UTF-8"]))
+                else:
+                    ok = isinstance(w, ast.Name) and w.id == blob
+                if not ok:
+                    w5.append(f"written expression `{unparse(w, 60)}` is not the value itself")
+            if any("b" not in m for m in ws["open"]):
+                w5.append("written in text mode")
+            if w5:
+                rep.bad(rule5, c.qname, desc5, s.loc(), w5, "verbatim", what=f"{c.name} does not store the value verbatim")
+            else:
+                rep.ok(rule5, c.qname, desc5, s.loc())
+    return n4
+
+
+
 def check_reader(ctx: Ctx, c: Class, rule: str) -> int:
     rep = ctx.report
     prog = ctx.prog
@@ -356,6 +368,34 @@ def _anc(f: Func, n: ast.AST):
         if isinstance(cur, (ast.FunctionDef, ast.AsyncFunctionDef)):
             return
         yield cur
+
+
+def _list_literal(ctx: Ctx, f: Func, e: ast.AST, depth: int):
+    """(function, list / tuple literal) an expression evaluates to: the literal itself, a local bound once to one, or
+    the single return value of a package function"""
+    if isinstance(e, (ast.List, ast.Tuple)):
+        return f, e
+    if depth > 3:
+        return None
+    if isinstance(e, ast.Name):
+        defs = flow_of(ctx.prog, f).defs_of_use(e) if cfg_of_(f).nodes_of(e) else []
+        if len(defs) == 1 and defs[0].value is not None and defs[0].kind == "assign":
+            return _list_literal(ctx, f, defs[0].value, depth + 1)
+        return None
+    if isinstance(e, ast.Call):
+        if unparse(e.func) in ("list", "tuple") and len(e.args) == 1:
+            return _list_literal(ctx, f, e.args[0], depth + 1)
+        fs, _ = ctx.prog.callees(f, e, ctx._types)
+        if len(fs) == 1:
+            rets = [r for r in fs[0].own_nodes() if isinstance(r, ast.Return) and r.value is not None]
+            if len(rets) == 1:
+                return _list_literal(ctx, fs[0], rets[0].value, depth + 1)
+    return None
+
+
+def cfg_of_(f: Func):
+    from ..cfg import cfg_of
+    return cfg_of(f)
 
 
 def _class_of_expr(ctx: Ctx, f: Func, fl, e: ast.AST) -> Optional[Class]:
